@@ -1,6 +1,7 @@
 package main
 
 import (
+	"go/types"
 	"fmt"
 	"go/ast"
 	"go/token"
@@ -40,6 +41,8 @@ func checkC17(c *Ctx) {
 	c.Rule("C17-R4", "getCharset: LC_ALL, then LC_CTYPE, then LANG; POSIX and C mean US-ASCII")
 	c.Rule("C17-R5", "the fallback map is consulted by direct lookup only and never copied after construction")
 	c.Rule("C17-R6", "RegisterEncoding and GetEncoding apply the same name normalisation under the registry lock; GetEncoding returns nil only when no fallback is configured")
+	c.Rule("C17-R7", "the buffer the charset encoder writes into has a constant size of at least 4 bytes in encodeRune and CanDisplay (not sized by the rune's UTF-8 length)")
+	c.Expect("C17-R7", 2)
 	for r, n := range map[string]int{"C17-R1": 3, "C17-R2": 3, "C17-R3": 32 + 31 + 3, "C17-R4": 3, "C17-R5": 1, "C17-R6": 3} {
 		c.Expect(r, n)
 	}
@@ -54,72 +57,10 @@ func checkC17(c *Ctx) {
 		c.Undecided("C17-R1", "encodeRune/CanDisplay", "-", "not found")
 		return
 	}
-	// ---- observations normaliser
-	norm := func(v ssa.Value) string {
-		var f func(v ssa.Value, d int) string
-		f = func(v ssa.Value, d int) string {
-			if d > 5 {
-				return "?"
-			}
-			v = stripConv(v)
-			switch x := v.(type) {
-			case *ssa.Const:
-				if x.Value == nil {
-					return "nil"
-				}
-				return x.Value.ExactString()
-			case *ssa.Extract:
-				if call, ok := x.Tuple.(*ssa.Call); ok && call.Call.IsInvoke() && call.Call.Method.Name() == "Transform" {
-					return fmt.Sprintf("T#%d", x.Index)
-				}
-			case *ssa.Phi:
-				// phi(zero, T#k) from `var x; if enc != nil { x = … }`
-				names := map[string]bool{}
-				for _, e := range x.Edges {
-					n := f(e, d+1)
-					if n != "0" && n != "nil" {
-						names[n] = true
-					}
-				}
-				if len(names) == 1 {
-					for n := range names {
-						return n
-					}
-				}
-			case *ssa.UnOp:
-				if ia, ok := x.X.(*ssa.IndexAddr); ok {
-					if k, ok := constInt(ia.Index); ok && k == 0 {
-						return "out[0]"
-					}
-				}
-			}
-			return "?" + valName(v)
-		}
-		return f(v, 0)
-	}
-	predAtoms := func(fn *ssa.Function) map[string]bool {
-		out := map[string]bool{}
-		for _, b := range fn.Blocks {
-			if len(b.Instrs) == 0 {
-				continue
-			}
-			iff, ok := b.Instrs[len(b.Instrs)-1].(*ssa.If)
-			if !ok {
-				continue
-			}
-			bo, ok := iff.Cond.(*ssa.BinOp)
-			if !ok {
-				continue
-			}
-			l, r := norm(bo.X), norm(bo.Y)
-			if strings.HasPrefix(l, "T#") || l == "out[0]" {
-				out[l+" "+bo.Op.String()+" "+r] = true
-			}
-		}
-		return out
-	}
-	fa := predAtoms(enc)
-	ca := predAtoms(can)
+	checkEncodeDst(c, p, enc, "C17-R7")
+	checkEncodeDst(c, p, can, "C17-R7")
+	fa := encPredAtoms(enc)
+	ca := encPredAtoms(can)
 	wantFail := []string{"T#2 != nil", "T#0 == 0", "out[0] == 26"}
 	okF := true
 	for _, w := range wantFail {
@@ -435,4 +376,148 @@ func c17Registry(c *Ctx, p *Prog) {
 		}
 	}
 	c.Check(okNil, "C17-R6", "GetEncoding:nil-only-without-fallback", p.pos(get.Pos()), "nil is returned only when the lookup failed and no fallback encoding is configured")
+}
+
+// encNorm names an observation of an encoder call: T#k = k-th result of
+// Transform, out[0] = first byte of the destination buffer.
+func encNorm(v ssa.Value) string {
+	var f func(v ssa.Value, d int) string
+	f = func(v ssa.Value, d int) string {
+		if d > 5 {
+			return "?"
+		}
+		v = stripConv(v)
+		switch x := v.(type) {
+		case *ssa.Const:
+			if x.Value == nil {
+				return "nil"
+			}
+			return x.Value.ExactString()
+		case *ssa.Extract:
+			if call, ok := x.Tuple.(*ssa.Call); ok && call.Call.IsInvoke() && call.Call.Method.Name() == "Transform" {
+				return fmt.Sprintf("T#%d", x.Index)
+			}
+		case *ssa.Phi:
+			// phi(zero, T#k) from `var x; if enc != nil { x = … }`
+			names := map[string]bool{}
+			for _, e := range x.Edges {
+				n := f(e, d+1)
+				if n != "0" && n != "nil" {
+					names[n] = true
+				}
+			}
+			if len(names) == 1 {
+				for n := range names {
+					return n
+				}
+			}
+		case *ssa.UnOp:
+			if ia, ok := x.X.(*ssa.IndexAddr); ok {
+				if k, ok := constInt(ia.Index); ok && k == 0 {
+					return "out[0]"
+				}
+			}
+		}
+		return "?" + valName(v)
+	}
+	return f(v, 0)
+}
+
+// encPredAtoms: the branch conditions of fn over the encoder's observations.
+func encPredAtoms(fn *ssa.Function) map[string]bool {
+	out := map[string]bool{}
+	for _, b := range fn.Blocks {
+		if len(b.Instrs) == 0 {
+			continue
+		}
+		iff, ok := b.Instrs[len(b.Instrs)-1].(*ssa.If)
+		if !ok {
+			continue
+		}
+		bo, ok := iff.Cond.(*ssa.BinOp)
+		if !ok {
+			continue
+		}
+		l, r := encNorm(bo.X), encNorm(bo.Y)
+		if strings.HasPrefix(l, "T#") || l == "out[0]" {
+			out[l+" "+bo.Op.String()+" "+r] = true
+		}
+	}
+	return out
+}
+
+// constLenOf: the length of a byte slice built from a constant-size allocation
+// by constant reslicing; ok=false when a bound depends on data.
+func constLenOf(v ssa.Value) (int64, bool, string) {
+	switch x := v.(type) {
+	case *ssa.Slice:
+		var base int64
+		switch b := x.X.(type) {
+		case *ssa.Alloc:
+			pt, ok := b.Type().Underlying().(*types.Pointer)
+			if !ok {
+				return 0, false, "not an array"
+			}
+			at, ok := pt.Elem().Underlying().(*types.Array)
+			if !ok {
+				return 0, false, "not an array"
+			}
+			base = at.Len()
+		default:
+			n, ok, why := constLenOf(x.X)
+			if !ok {
+				return 0, false, why
+			}
+			base = n
+		}
+		lo := int64(0)
+		if x.Low != nil {
+			k, ok := constInt(x.Low)
+			if !ok {
+				return 0, false, "lower bound " + valName(x.Low) + " is not constant"
+			}
+			lo = k
+		}
+		hi := base
+		if x.High != nil {
+			k, ok := constInt(x.High)
+			if !ok {
+				return 0, false, "upper bound " + valName(x.High) + " is not constant"
+			}
+			hi = k
+		}
+		return hi - lo, true, ""
+	case *ssa.MakeSlice:
+		k, ok := constInt(x.Len)
+		if !ok {
+			return 0, false, "made with a non-constant length"
+		}
+		return k, true, ""
+	}
+	return 0, false, "destination is " + valName(v)
+}
+
+// checkEncodeDst: the destination handed to the charset encoder must have room
+// for the longest encoding of one character in any registered charset (4 bytes:
+// GB18030), independent of the rune: a destination sized by the UTF-8 length of
+// the rune makes ErrShortDst look like "not representable".
+func checkEncodeDst(c *Ctx, p *Prog, fn *ssa.Function, rule string) {
+	n := 0
+	eachInstr(fn, func(in ssa.Instruction) {
+		cc := callCommon(in)
+		if cc == nil || !cc.IsInvoke() || cc.Method.Name() != "Transform" || len(cc.Args) != 3 {
+			return
+		}
+		n++
+		ln, ok, why := constLenOf(cc.Args[0])
+		key := fmt.Sprintf("%s:encoder-destination#%d", fn.Name(), n)
+		if !ok {
+			c.Fail(rule, key, p.pos(in.Pos()), "the encoder's destination buffer does not have a constant size: "+why)
+			return
+		}
+		c.Check(ln >= 4, rule, key, p.pos(in.Pos()), fmt.Sprintf("destination buffer of %d bytes (the longest single-character encoding among the charsets is 4 bytes)", ln))
+	})
+	if n == 0 {
+		c.Undecided(rule, fn.Name()+":encoder-destination", p.pos(fn.Pos()), "no Transform call")
+	}
 }
